@@ -9,7 +9,8 @@ TMP = os.path.join(vc.BUILD, "tmp")
 
 
 def H(name, mode, profile="checked", args=(), group=None, timeout=3600, tiers=("quick", "thorough"), env=None):
-    return {"kind": "harness", "name": name, "mode": mode, "profile": profile, "args": list(args),
+    return {"kind": "harness", "name": name, "mode": mode, "profile": profile,
+            "args": args if isinstance(args, dict) else list(args),
             "group": group or mode, "timeout": timeout, "tiers": tiers, "env": env}
 
 
@@ -51,7 +52,7 @@ def run_stages(pid, tier, seed, t0, level, stages, required=(), assumptions=(), 
             if prof not in bins:
                 bins[prof] = build_harness(prof)
             outp = os.path.join(TMP, f"{pid}-{st['name']}-{tier}-{seed}.json")
-            sargs = st["args"]
+            sargs = st["args"][tier] if isinstance(st["args"], dict) else st["args"]
             env = dict(st.get("env") or {})
             if prof == "asan":
                 env["ASAN_OPTIONS"] = "halt_on_error=1:abort_on_error=0:detect_leaks=0"
@@ -166,7 +167,7 @@ WALK_ASSUME = ["oracle = refchess advanced by the same moves (rules), pre-move s
 
 
 def c02(pid, tier, seed, t0):
-    stages = [H("walk-checked", "c02", "checked", args=["--scale", "3"]),
+    stages = [H("walk-checked", "c02", "checked", args={"quick": ["--scale", "3"], "thorough": ["--scale", "1"]}),
               M("walk-miri", "miri-c02", [["--root-lo", str(i), "--root-hi", str(i + 1)] for i in range(0, 10, 2)])]
     return run_stages(pid, tier, seed, t0, "exploration", stages,
                       required=WALK_FEATURES + ("double_push_with_neighbour", "double_push_without_neighbour",
@@ -177,14 +178,14 @@ def c02(pid, tier, seed, t0):
 
 
 def c03(pid, tier, seed, t0):
-    stages = [H("walk-checked", "c03", "checked", args=["--scale", "3"])]
+    stages = [H("walk-checked", "c03", "checked", args={"quick": ["--scale", "3"], "thorough": ["--scale", "1"]})]
     return run_stages(pid, tier, seed, t0, "exploration", stages, required=WALK_FEATURES + ("transposition_pairs_compared",),
                       assumptions=WALK_ASSUME + ["'different keys on everything explored' is claimed for the positions "
                                                  "in the run-wide map only (capped, see x_positions_in_collision_map)"])
 
 
 def c15(pid, tier, seed, t0):
-    stages = [H("walk-checked", "c15", "checked", args=["--scale", "3"])]
+    stages = [H("walk-checked", "c15", "checked", args={"quick": ["--scale", "3"], "thorough": ["--scale", "1"]})]
     return run_stages(pid, tier, seed, t0, "exploration", stages, required=WALK_FEATURES, assumptions=WALK_ASSUME)
 
 
@@ -219,7 +220,7 @@ def c07(pid, tier, seed, t0):
 
 
 def c10(pid, tier, seed, t0):
-    stages = [H("picker-checked", "c10", "checked", args=["--scale", "3"])]
+    stages = [H("picker-checked", "c10", "checked", args={"quick": ["--scale", "8"], "thorough": ["--scale", "1"]})]
     return run_stages(pid, tier, seed, t0, "exploration", stages,
                       required=("full_streams", "loud_streams", "coincidence_hash_eq_killer",
                                 "coincidence_counter_eq_killer", "coincidence_counter_eq_hash",
@@ -230,7 +231,7 @@ def c10(pid, tier, seed, t0):
 
 
 def c11(pid, tier, seed, t0):
-    stages = [H("draws-checked", "c11", "checked", args=["--scale", "2"]),
+    stages = [H("draws-checked", "c11", "checked", args={"quick": ["--scale", "2"], "thorough": ["--scale", "1"]}),
               H("draws-in-search", "c11s", "checked", group="c11s")]
     return run_stages(pid, tier, seed, t0, "exploration", stages,
                       required=("repetitions_observed", "repetition_of_oldest_position_in_window",
@@ -247,7 +248,7 @@ def c11(pid, tier, seed, t0):
 
 
 def c16(pid, tier, seed, t0):
-    stages = [H("eval-checked", "c16", "checked")]
+    stages = [H("eval-checked", "c16", "checked", args={"quick": ["--scale", "8"], "thorough": ["--scale", "1"]})]
     return run_stages(pid, tier, seed, t0, "exploration", stages,
                       required=("phase_above_24", "six_or_more_queens", "blend_cube_triples"),
                       assumptions=["pure middlegame / endgame assessments are the engine's own evaluation with the "
@@ -255,7 +256,7 @@ def c16(pid, tier, seed, t0):
 
 
 def c18(pid, tier, seed, t0):
-    stages = [H("san-checked", "c18", "checked")]
+    stages = [H("san-checked", "c18", "checked", args={"quick": ["--scale", "2"], "thorough": ["--scale", "1"]})]
     return run_stages(pid, tier, seed, t0, "exploration", stages,
                       required=("ambiguity_neither_file_nor_rank_shared", "ambiguity_file_shared",
                                 "ambiguity_rank_shared", "ambiguity_both_shared", "capturing_promotions",
@@ -267,8 +268,10 @@ def c18(pid, tier, seed, t0):
 def c19(pid, tier, seed, t0):
     stages = [H("tt-checked", "c19", "checked"),
               H("tt-opt", "c19", "opt", group="c19-opt", args=["--no-size-sweep"]),
+              H("tt-large-checked", "c19", "checked", group="c19-large", tiers=("thorough",),
+                args=["--sizes", "128,256,512", "--histories", "96", "--max-ops", "4000", "--no-size-sweep", "--threads", "4"]),
               H("tt-asan", "c19", "asan", group="c19-asan", tiers=("thorough",), args=["--histories", "8000", "--max-ops", "8000", "--no-size-sweep"]),
-              M("tt-miri", "c19", [["--threads", "1", "--histories", "5", "--max-ops", "1200", "--sizes", "0,1", "--no-size-sweep", "--seed-add", str(i)] for i in range(8)], timeout=3600)]
+              M("tt-miri", "c19", [["--threads", "1", "--histories", "3", "--max-ops", "400", "--sizes", "0,1", "--no-size-sweep", "--seed-add", str(i)] for i in range(12)], timeout=2400)]
     return run_stages(pid, tier, seed, t0, "exploration", stages,
                       required=("insert_must_not_displace_exact", "insert_over_older_search", "insert_policy_free",
                                 "slot_collision_different_keys", "probe_hits", "probe_misses", "reset", "resize",
@@ -280,7 +283,7 @@ def c19(pid, tier, seed, t0):
 
 
 def c20(pid, tier, seed, t0):
-    stages = [H("see-checked", "c20", "checked", args=["--scale", "2"])]
+    stages = [H("see-checked", "c20", "checked", args={"quick": ["--scale", "10"], "thorough": ["--scale", "1"]})]
     return run_stages(pid, tier, seed, t0, "exploration", stages,
                       required=("target_undefended", "victim_ge_attacker", "swaplist_order_irrelevant",
                                 "swaplist_with_xray_attacker", "capturing_promotions"),
